@@ -26,6 +26,7 @@ mod ops_blocks;
 mod ops_c04;
 mod ops_cm;
 mod ops_scan;
+mod ops_strleaf;
 mod ops_c06;
 
 pub const COMPONENTS: &[fn(&str, &[String]) -> Option<String>] = &[
@@ -39,6 +40,7 @@ pub const COMPONENTS: &[fn(&str, &[String]) -> Option<String>] = &[
     ops_rt::dispatch,
     ops_cm::dispatch,
     ops_scan::dispatch,
+    ops_strleaf::dispatch,
 ];
 
 #[allow(dead_code)]
